@@ -289,8 +289,7 @@ def parse_kani_output(text):
 def run_kani(src, harnesses, jobs=16, extra=None, package="dnp3", features=None, logfile=None, hard_timeout=None):
     """One cargo-kani invocation for a list of Harness objects."""
     cmd = ["cargo", "kani", "-p", package]
-    if package == "dnp3":
-        cmd += ["--no-default-features"]
+    cmd += ["--no-default-features"]
     cmd += KANI_FLAGS
     cmd += ["--exact"]
     for h in harnesses:
